@@ -82,7 +82,7 @@ func init() {
 		Run: run,
 		Gate: func(tier string) map[string]int {
 			return map[string]int{
-				"node_started": 1, "calls_made": 2000, "transport_exercised:inproc": 1, "transport_exercised:ipc": 1,
+				"node_started": 1, "pending_tx_seeded": 2, "calls_made": 2000, "transport_exercised:inproc": 1, "transport_exercised:ipc": 1,
 				"transport_exercised:http": 1, "transport_exercised:ws": 1,
 				"positive_control_signed": 4, // each single-transport opt-in must really sign on its transport
 				"default_env_checked":     1,
@@ -107,6 +107,10 @@ var skipMethods = map[string]bool{
 	"admin_sleep": true, "admin_sleepBlocks": true, "admin_exportChain": true, "admin_importChain": true,
 	"debug_cpuProfile": true, "debug_blockProfile": true, "debug_mutexProfile": true, "debug_goTrace": true,
 	"debug_startCPUProfile": true, "debug_stopCPUProfile": true, "debug_startGoTrace": true, "debug_stopGoTrace": true,
+	// getWork starts the miner as a side effect (same as miner_start): with the
+	// harness's fake PoW that mines blocks back to back, empties the seeded pool
+	// and burns the CPU
+	"aqua_getWork": true, "eth_getWork": true,
 	"miner_start": true, "admin_shutdown": true, "testing_shutdown": true, "admin_stop": true,
 	// these dereference the CLI's glog handler, which only cmd setup installs
 	// (internal/debug.Setup); an embedded node has none, so calling them crashes
@@ -147,7 +151,7 @@ func fill(t reflect.Type, v variant, field string, depth int) reflect.Value {
 	case t == typAddress:
 		a := v.Acct
 		if field == "To" {
-			a = common.HexToAddress("0x00000000000000000000000000000000000000aa")
+			a = common.HexToAddress(fillTo)
 		}
 		val.Set(reflect.ValueOf(a))
 		return val
@@ -257,7 +261,7 @@ func involvesAccount(m rpc.VerifMethod) bool {
 }
 
 func run(c *fw.Ctx) {
-	log.Root().SetHandler(log.DiscardHandler())
+	log.Root().SetHandler(log.LvlFilterHandler(log.LvlError, log.StreamHandler(os.Stderr, log.LogfmtFormat())))
 	os.Chdir(c.Dir) // methods that take file names write under the scratch dir
 	// the node locks <HOME>/.aquachain/<chain name>/LOCK whatever its DataDir is:
 	// give every child its own HOME so parallel nodes do not collide
@@ -295,7 +299,21 @@ func run(c *fw.Ctx) {
 	if !ok || tn == nil {
 		return
 	}
-	defer tn.stop()
+	// The node is deliberately NOT stopped at the end: some invoked methods start
+	// block production, and the node's own shutdown races its worker against the
+	// closing database (log.Crit -> os.Exit(1)), which would turn a finished child
+	// into a dead one for a reason unrelated to signing. The process exits right
+	// after the results are written.
+	defer func() {
+		var ok bool
+		tn.clients["inproc"].Call(&ok, "miner_stop")
+	}()
+	if n, err := tn.seedPending(); err != nil {
+		c.Note("seeding pending transactions failed: %v", err)
+		c.Inconclusive("pending_seed_failed")
+	} else {
+		c.CountN("pending_tx_seeded", n)
+	}
 	handlers := tn.stack.VerifHandlers()
 	exposed := map[string][]string{}
 	skipped := map[string]bool{}
@@ -346,6 +364,9 @@ func run(c *fw.Ctx) {
 					}
 					att1, prod1 := keystore.VerifSignCounters()
 					c.Count("calls_made")
+					if involvesAccount(m) {
+						c.Note("result %s: err=%v result=%s attempts+%d produced+%d", id, err, truncate(string(result), 120), att1-att0, prod1-prod0)
+					}
 					c.Count("transport_exercised:" + tr)
 					if err == context.DeadlineExceeded {
 						c.Count("call_timed_out")
